@@ -98,6 +98,28 @@ func c04Gen(rng *verifsim.RNG, idx int, tier string) *Plan {
 		if p.Horizon < t0+nsSec {
 			p.Horizon = t0 + nsSec
 		}
+	} else if rng.Bool(0.3) {
+		// A build whose forwarding read has sampled its value but is slow to
+		// return; forwarding flips; another RA is asked for and built while the
+		// first is still stuck. Each RA carries what its own build read.
+		p.Class = "held-read"
+		iw := n.Ifaces[rng.Intn(nif)]
+		t0 := int64(rng.Dur(13*time.Second, 30*time.Second))
+		p.Faults = append(p.Faults, Fault{Seam: "fwd", If: iw.Name, From: t0, Count: 1, Hold: "h2", Mode: "sampled"})
+		second := rsAction(t0+700*nsMs+jitter(rng), hostAddr(1))
+		if rng.Bool(0.3) {
+			// ... or the consistency check of a neighbour's RA
+			second = Action{At: t0 + 700*nsMs + jitter(rng), Kind: "ra", Src: "fe80::beef", RA: &RASpec{Hop: 64, Lifetime: 1800}}
+		}
+		first := rsAction(t0+nsMs, hostAddr(0))
+		first.If, second.If = iw.Name, iw.Name
+		p.Actions = append(p.Actions, first,
+			Action{At: t0 + 600*nsMs, Kind: "fwd", If: iw.Name, On: rng.Bool(0.3)},
+			second,
+			Action{At: t0 + 1400*nsMs, Kind: "release", Hold: "h2"})
+		if p.Horizon < t0+2*nsSec {
+			p.Horizon = t0 + 2*nsSec
+		}
 	}
 	return p
 }
@@ -218,6 +240,20 @@ func c04Oracle(info *runInfo, res *verifsim.Result) {
 				enterSeq = info.ev[j].Seq
 				break
 			}
+		}
+		// Another request in progress at the same time (one of them stuck in a
+		// slow read): the reads of the two cannot be told apart (the metrics
+		// registry gathers on goroutines of its own). Other runs judge these.
+		overlap := false
+		for j := range info.ev {
+			x := &info.ev[j]
+			if (x.K == "http.enter" || x.K == "http.exit") && x.Ref != e.Ref && x.Seq > enterSeq && x.Seq < e.Seq {
+				overlap = true
+			}
+		}
+		if overlap {
+			res.Probe("overlapping_requests_not_judged")
+			continue
 		}
 		fwdRead := map[string]bool{}
 		for j := range info.ev {
